@@ -417,14 +417,23 @@ func (fc *fnCtx) indexAddrArr(x Val, arr *types.Array, idx string) Val {
 	return Val{Typ: pt, Sort: "Ref", Addr: a}
 }
 
+// sliceIdx: absolute index of element i of slice term s. A slice obtained by re-slicing (x[lo:...]) is indexed
+// relative to the original slice's offset, at(soff x, lo+i), so that quantified facts about x's elements match.
+func (fc *fnCtx) sliceIdx(s, i string) string {
+	if rb, ok := fc.sliceBase[s]; ok {
+		return App("at", rb.off, App("+", rb.delta, i))
+	}
+	return App("at", App("soff", s), i)
+}
+
 func (fc *fnCtx) indexAddrSlice(s Val, elem types.Type, idx string) Val {
-	a := &Addr{Root: rootElem, Heap: fc.elemHeap(elem), Key: App("sarr", s.T), Idx: App("at", App("soff", s.T), idx), RootType: elem, Typ: elem}
+	a := &Addr{Root: rootElem, Heap: fc.elemHeap(elem), Key: App("sarr", s.T), Idx: fc.sliceIdx(s.T, idx), RootType: elem, Typ: elem}
 	return Val{Typ: types.NewPointer(elem), Sort: "Ref", Addr: a}
 }
 
 // sliceElem reads s[i].
 func (fc *fnCtx) sliceElem(st *State, s string, elem types.Type, idx string) string {
-	return Select(Select(fc.H(st, fc.elemHeap(elem)), App("sarr", s)), App("at", App("soff", s), idx))
+	return Select(Select(fc.H(st, fc.elemHeap(elem)), App("sarr", s)), fc.sliceIdx(s, idx))
 }
 
 // newRef allocates a fresh reference.
